@@ -30,17 +30,18 @@ from .common import symbolic_run, Vals
 PROPERTY = "C18"
 
 SHAPES = {"s": (), "1": (4,), "2": (2, 3), "3": (2, 2, 2)}
-KINDS = {"1": ["B", "T", "I", "N"], "2": ["B", "T", "I", "N", "P"], "3": ["B", "T", "I", "N", "P"]}
+KINDS = {"1": ["B", "T", "I", "N"], "2": ["B", "T", "I", "N", "P", "M"], "3": ["B", "T", "I", "N", "P", "M"]}
 OPS_SCALAR = ["stA", "seA", "adA", "adAB", "adN", "rsA", "rsAk", "rsAn"]
 OPS_ARRAY = OPS_SCALAR + ["mut", "sl", "sl2", "nest", "adS", "rsS", "stS", "seS"]
 
 BOUNDS = {
     "quick": dict(history_length=4, shapes=["scalar", "(4,)", "(2,3)", "(2,2,2)"], dtypes=["real", "complex"],
                   slice_kinds="B basic, T tuple of slices, I integer array (no repeats), N single integer, "
-                              "P tuple of integer arrays (rank>=2); nested basic slice on B/T/N parents; two slice "
+                              "P tuple of integer arrays (rank>=2), M basic slice mixed with an integer array (rank>=2; NumPy returns "
+                              "a copy whose .base is not None); nested basic slice on B/T/N parents; two slice "
                               "kinds (primary/secondary) can be live at the same time",
                   initial="A with and without an initial sensitivity (keep_alloc True/False)",
-                  configurations="shape x dtype x initial x primary slice kind = 56 array + 4 scalar configurations",
+                  configurations="shape x dtype x initial x primary slice kind = 64 array + 4 scalar configurations",
                   enumeration="array configurations: ALL words of length 3 over the 16-letter alphabet (preconditions "
                               "respected; prefixes are checked on the way) plus a deterministic seeded sample "
                               "(random.Random('C18/<config>')) of 100 words of length 4; scalar configurations: ALL "
@@ -77,10 +78,11 @@ def spec(shape_key, kind):
         return {"B": slice(1, 3), "T": (slice(0, 4, 2),), "I": np.array([3, 0, 2]), "N": 2}[kind]
     if shape_key == "2":
         return {"B": slice(0, 1), "T": (slice(None), slice(1, 3)), "I": np.array([1, 0]), "N": 1,
-                "P": (np.array([0, 1]), np.array([2, 0]))}[kind]
+                "P": (np.array([0, 1]), np.array([2, 0])), "M": (slice(None), np.array([2, 0]))}[kind]
     if shape_key == "3":
         return {"B": slice(1, 2), "T": (slice(None), slice(0, 1), slice(None)), "I": np.array([1, 0]), "N": 0,
-                "P": (np.array([1, 0]), np.array([0, 1]), np.array([1, 1]))}[kind]
+                "P": (np.array([1, 0]), np.array([0, 1]), np.array([1, 1])),
+                "M": (slice(0, 2), np.array([1, 0]), 1)}[kind]
     raise KeyError(shape_key)
 
 
